@@ -3755,6 +3755,14 @@ static void generate_toplevel_globals(StringBuilder *sb, ASTNode *program, Envir
 
         bool is_const_init = is_c_constant_initializer(item->as.let.value);
 
+        /* The compile-time evaluator (shadow tests) leaves the value it computed for this
+         * initializer in the symbol, and the expression emitter inlines such values at every use.
+         * Only a literal may be folded: anything else (getenv, getcwd, file_exists, a function
+         * call ...) must be read from the run-time initialised global. */
+        if (!is_const_init && sym) {
+            sym->value = create_void();
+        }
+
         if (!item->as.let.is_mut && is_const_init) {
             /* Emit true constants as C constants */
             sb_append(sb, "static const ");
